@@ -26,6 +26,7 @@
 #include "process.h"            /* struct process */
 
 #include <string.h>             /* memset() */
+#include "verif.h"
 
 
 /*
@@ -163,6 +164,29 @@ static uintmax_t reord_offs;
 
 static struct detached_bitstream parser_bs;
 static struct parser_state par;
+
+#ifdef KJN_LBZIP2_VERIF
+/* Positions are logged as (I/O block ordinal, bit within block, sub-index);
+   each field stays below 2^31. */
+#define VBIT(p) ((unsigned long)((p).minor >> 27))
+#define VSUB(p) ((unsigned long)((p).minor & ((1ul << 27) - 1)))
+#define VMAJ(p) ((unsigned long)(p).major)
+/* Scalar scheduler state logged with every event (post-state). */
+#define VST "\"wu\":%u,\"os\":%u,\"pt\":%d,\"pd\":%d,\"ho\":%lu,\"to\":%lu,"        \
+  "\"nin\":%u,\"nsc\":%u,\"nre\":%u,\"nem\":%u,\"nro\":%u,\"nor\":%u,\"nun\":%u,"   \
+  "\"pmaj\":%lu,\"pbit\":%lu,\"poff\":%lu,\"eof\":%d,\"ldec\":%d,\"lout\":%d"
+#define VSA work_units, out_slots, (int)parse_token, (int)parsing_done,    \
+    (unsigned long)head_offs, (unsigned long)tail_offs, size(input_q),     \
+    size(scan_q), size(retr_q), size(emit_q), size(reord_q), size(order_q),\
+    size(unord_q), VMAJ(parser_bs.pos), VBIT(parser_bs.pos),               \
+    (unsigned long)parser_bs.offset, (int)eof, verif_live(VERIF_C_DEC),    \
+    verif_live(VERIF_C_OUTBUF)
+/* Retrieve job: base, current position and offset. */
+#define VRB "\"maj\":%lu,\"bit\":%lu,\"cmaj\":%lu,\"cbit\":%lu,\"coff\":%lu,"
+#define VRA(rb) VMAJ((rb)->base), VBIT((rb)->base),                       \
+    VMAJ((rb)->curr_pos.pos), VBIT((rb)->curr_pos.pos),                   \
+    (unsigned long)(rb)->curr_pos.offset
+#endif
 
 
 #if 1
@@ -372,6 +396,7 @@ advance(struct detached_bitstream bs)
            nbsx2(rb->base)));
 
     decoder_free(&rb->ds);
+    VERIF_FREE(VERIF_C_DEC);
     free(rb);
     work_units++;
   }
@@ -403,7 +428,12 @@ do_parse(void)
 
   parse_token = 0;
   --work_units;
+#ifdef KJN_LBZIP2_VERIF
+  (void)verif_rel_take();
+#endif
+  VERIF_EV("\"e\":\"ParseBegin\"," VST, VSA);
   true_bitstream = attach(parser_bs);
+  VERIF_DELAY("parse", parser_bs.pos.major);
   rv = parse(&par, &head_blk.hdr, &true_bitstream, &garbage);
   advance(detach(true_bitstream));
   check_invariants();
@@ -414,6 +444,7 @@ do_parse(void)
   if (rv == MORE) {
     parse_token = true;
     work_units++;
+    VERIF_EV("\"e\":\"ParseMore\",\"rel\":%u," VST, verif_rel_take(), VSA);
     check_invariants();
     return;
   }
@@ -457,6 +488,7 @@ do_parse(void)
              nbsx2(rb->base)));
 
       decoder_free(&rb->ds);
+      VERIF_FREE(VERIF_C_DEC);
       free(rb);
       work_units++;
     }
@@ -470,6 +502,10 @@ do_parse(void)
     while (!empty(unord_q)) {
       struct unord_blk *ublk = dequeue(unord_q);
 
+#ifdef KJN_LBZIP2_VERIF
+      if (ublk->complete)
+        VERIF_FREE(VERIF_C_UNORD);
+#endif
       if (ublk->complete)
         free(ublk);
       else {
@@ -480,6 +516,8 @@ do_parse(void)
 
     /* Release work unit. */
     work_units++;
+    VERIF_EV("\"e\":\"ParseFinish\",\"garbage\":%u,\"rel\":%u," VST, garbage,
+             verif_rel_take(), VSA);
 
     check_invariants();
     return;
@@ -488,17 +526,29 @@ do_parse(void)
   if (rv != OK) {
     Trace(("Parser found a parse error at {%lu}",
            32ul + 32ul * parser_bs.offset - parser_bs.live));
+    VERIF_EV("\"e\":\"ParseErr\",\"rv\":%d,\"rel\":%u," VST, rv, verif_rel_take(),
+             VSA);
     failf(&ispec, "compressed data error: %s", err2str(rv));
   }
 
   head_blk.base = parser_bs.pos;
   push(order_q, head_blk);
+#ifdef KJN_LBZIP2_VERIF
+  struct position vbase = parser_bs.pos;
+  unsigned long vboff = parser_bs.offset;
+  int vkind = 0, vstale = 0;
+#endif
 
   while (!empty(unord_q) && pos_lt(peek(unord_q)->base, parser_bs.pos)) {
     struct unord_blk *ublk = dequeue(unord_q);
 
     Trace(("Parser discovered a mis-recognized bit pattern at {%u}",
            nbsx2(ublk->base)));
+#ifdef KJN_LBZIP2_VERIF
+    vstale++;
+    if (ublk->complete)
+      VERIF_FREE(VERIF_C_UNORD);
+#endif
     if (ublk->complete) {
       free(ublk);
     }
@@ -515,6 +565,11 @@ do_parse(void)
            nbsx2(ublk->base)));
     advance(ublk->end_pos);
 
+#ifdef KJN_LBZIP2_VERIF
+    vkind = ublk->complete ? 1 : 2;
+    if (ublk->complete)
+      VERIF_FREE(VERIF_C_UNORD);
+#endif
     if (ublk->complete) {
       parse_token = true;
       free(ublk);
@@ -533,11 +588,15 @@ do_parse(void)
 
     rb->unord_link = NULL;
     decoder_init(&rb->ds);
+    VERIF_ALLOC(VERIF_C_DEC);
     rb->curr_pos = parser_bs;
     rb->base = parser_bs.pos;
     enqueue(retr_q, rb);
     Trace(("Parser found a unique block at {%u}", nbsx2(rb->base)));
   }
+  VERIF_EV("\"e\":\"ParseBlock\",\"maj\":%lu,\"bit\":%lu,\"boff\":%lu,\"kind\":%d,"
+           "\"stale\":%d,\"bs\":%d,\"rel\":%u," VST, VMAJ(vbase), VBIT(vbase),
+           vboff, vkind, vstale, head_blk.hdr.bs100k, verif_rel_take(), VSA);
 
   check_invariants();
 }
@@ -559,15 +618,30 @@ do_retrieve(void)
 
   assert(!parsing_done);
   rb = dequeue(retr_q);
+#ifdef KJN_LBZIP2_VERIF
+  (void)verif_rel_take();
+#endif
+  VERIF_EV("\"e\":\"RetrBegin\"," VRB "\"link\":%d," VST, VRA(rb),
+           rb->unord_link != NULL, VSA);
 
   true_bitstream = attach(rb->curr_pos);
+  VERIF_DELAY(rb->unord_link != NULL ? "retr_spec" : "retr_master",
+              rb->base.major);
   rv = retrieve(&rb->ds, &true_bitstream);
+  VERIF_DELAY(rb->unord_link != NULL ? "retr_spec_post" : "retr_master_post",
+              rb->base.major);
   rb->curr_pos = detach(true_bitstream);
+#ifdef KJN_LBZIP2_VERIF
+  struct retr_blk vrb = *rb;
+#endif
 
   if (parsing_done) {
     decoder_free(&rb->ds);
+    VERIF_FREE(VERIF_C_DEC);
     free(rb);
     work_units++;
+    VERIF_EV("\"e\":\"RetrEnd\"," VRB "\"rv\":%d,\"kind\":\"dead\",\"master\":0,"
+             "\"rel\":%u," VST, VRA(&vrb), rv, verif_rel_take(), VSA);
     check_invariants();
     return;
   }
@@ -580,7 +654,10 @@ do_retrieve(void)
     Trace(("Retriever found himself redundand"));
     work_units++;
     decoder_free(&rb->ds);
+    VERIF_FREE(VERIF_C_DEC);
     free(rb);
+    VERIF_EV("\"e\":\"RetrEnd\"," VRB "\"rv\":%d,\"kind\":\"redundant\","
+             "\"master\":0,\"rel\":%u," VST, VRA(&vrb), rv, verif_rel_take(), VSA);
     check_invariants();
     return;
   }
@@ -597,6 +674,10 @@ do_retrieve(void)
   if (rv == MORE) {
     Trace(("Retriever blocked waiting for input"));
     enqueue(retr_q, rb);
+    VERIF_EV("\"e\":\"RetrEnd\"," VRB "\"rv\":%d,\"kind\":\"more\",\"master\":%d,"
+             "\"rel\":%u," VST, VRA(rb), rv,
+             (rb->unord_link == NULL || rb->unord_link->complete),
+             verif_rel_take(), VSA);
     check_invariants();
     return;
   }
@@ -618,10 +699,19 @@ do_retrieve(void)
     parse_token = 1;
     /* Parser knows about us, unord block is no longer needed. */
     free(rb->unord_link);
+#ifdef KJN_LBZIP2_VERIF
+    if (rb->unord_link != NULL)
+      VERIF_FREE(VERIF_C_UNORD);
+    vrb.unord_link = NULL;
+#endif
   }
+  VERIF_EV("\"e\":\"RetrEnd\"," VRB "\"rv\":%d,\"kind\":\"done\",\"master\":%d,"
+           "\"rel\":%u," VST, VRA(rb), rv, vrb.unord_link == NULL,
+           verif_rel_take(), VSA);
   check_invariants();
   sched_unlock();
 
+  VERIF_DELAY("decode", rb->base.major);
   if (rv == OK)
     decode(&rb->ds);
 
@@ -636,6 +726,8 @@ do_retrieve(void)
 
   sched_lock();
   enqueue(emit_q, eb);
+  VERIF_EV("\"e\":\"RetrPush\",\"maj\":%lu,\"bit\":%lu,\"st\":%d," VST,
+           VMAJ(eb->base), VBIT(eb->base), eb->status, VSA);
   check_invariants();
 }
 
@@ -658,10 +750,14 @@ do_emit(void)
 
   out_slots--;
   eb = dequeue(emit_q);
+  VERIF_EV("\"e\":\"EmitBegin\",\"maj\":%lu,\"bit\":%lu,\"sub\":%lu," VST,
+           VMAJ(eb->base), VBIT(eb->base), VSUB(eb->base), VSA);
   check_invariants();
   sched_unlock();
 
+  VERIF_DELAY("emit", eb->base.major);
   oblk = xmalloc(sizeof(struct out_blk) + out_granul);
+  VERIF_ALLOC(VERIF_C_OUTBUF);
   oblk->size = out_granul;
   oblk->blk_sz = eb->ds.block_size;
   rv = eb->status;
@@ -681,12 +777,16 @@ do_emit(void)
     oblk->end_offset = eb->end_offset;
     oblk->crc = eb->ds.crc;
     decoder_free(&eb->ds);
+    VERIF_FREE(VERIF_C_DEC);
     free(eb);
     sched_lock();
     work_units++;
   }
 
   enqueue(reord_q, oblk);
+  VERIF_EV("\"e\":\"EmitEnd\",\"maj\":%lu,\"bit\":%lu,\"sub\":%lu,\"st\":%d,"
+           "\"size\":%lu," VST, VMAJ(oblk->base), VBIT(oblk->base),
+           VSUB(oblk->base), oblk->status, (unsigned long)oblk->size, VSA);
   check_invariants();
 }
 
@@ -709,8 +809,15 @@ do_reorder(void)
 
   if (empty(order_q) || pos_lt(peek(reord_q)->base, dq_get(order_q, 0).base)) {
     Trace(("Rejected bogus block at {%u}", nbsx2(peek(reord_q)->base)));
+#ifdef KJN_LBZIP2_VERIF
+    struct position vb = peek(reord_q)->base;
+#endif
     free(dequeue(reord_q));
+    VERIF_FREE(VERIF_C_OUTBUF);
     out_slots++;
+    VERIF_EV("\"e\":\"Reorder\",\"maj\":%lu,\"bit\":%lu,\"sub\":%lu,"
+             "\"kind\":\"bogus\",\"st\":0,\"size\":0," VST, VMAJ(vb), VBIT(vb),
+             VSUB(vb), VSA);
     check_invariants();
     return;
   }
@@ -731,11 +838,22 @@ do_reorder(void)
   else {
     if (oblk->status == OK && oblk->crc != ord.hdr.crc)
       oblk->status = ERR_BLKCRC;
+#ifdef KJN_LBZIP2_VERIF
+    if (oblk->status != OK)
+      VERIF_EV("\"e\":\"Reorder\",\"maj\":%lu,\"bit\":%lu,\"sub\":%lu,"
+               "\"kind\":\"fail\",\"st\":%d,\"size\":%lu," VST, VMAJ(oblk->base),
+               VBIT(oblk->base), VSUB(oblk->base), oblk->status,
+               (unsigned long)oblk->size, VSA);
+#endif
     if (oblk->status != OK)
       failf(&ispec, "compressed data error: %s", err2str(oblk->status));
   }
 
   sink_write_buffer(oblk + 1, oblk->size, 4 * offs_incr);
+  VERIF_EV("\"e\":\"Reorder\",\"maj\":%lu,\"bit\":%lu,\"sub\":%lu,\"kind\":\"%s\","
+           "\"st\":%d,\"size\":%lu," VST, VMAJ(oblk->base), VBIT(oblk->base),
+           VSUB(oblk->base), oblk->status == MORE ? "part" : "last",
+           oblk->status, (unsigned long)oblk->size, VSA);
   check_invariants();
 }
 
@@ -765,17 +883,34 @@ do_scan(void)
       && bs->pos.minor < parser_bs.pos.minor) {
     skip = (parser_bs.pos.minor - bs->pos.minor) >> 27;
   }
+#ifdef KJN_LBZIP2_VERIF
+  (void)verif_rel_take();
+#endif
+  VERIF_EV("\"e\":\"ScanBegin\",\"maj\":%lu,\"bit\":%lu,\"off\":%lu,\"skip\":%u,"
+           VST, VMAJ(bs->pos), VBIT(bs->pos), (unsigned long)bs->offset, skip,
+           VSA);
 
   true_bitstream = attach(*bs);
+  VERIF_DELAY("scan", bs->pos.major);
   scan_result = scan(&true_bitstream, skip);
   *bs = detach(true_bitstream);
 
   if (scan_result != OK || parsing_done) {
     work_units++;
+    VERIF_EV("\"e\":\"ScanEnd\",\"kind\":\"miss\",\"maj\":%lu,\"bit\":%lu,"
+             "\"off\":%lu,\"requeue\":0,\"found\":%d,\"rel\":%u," VST,
+             VMAJ(bs->pos), VBIT(bs->pos), (unsigned long)bs->offset,
+             scan_result == OK, verif_rel_take(), VSA);
     free(bs);
     check_invariants();
     return;
   }
+#ifdef KJN_LBZIP2_VERIF
+  const char *vsk = pos_le(bs->pos, parser_bs.pos) ? "known" : "unique";
+  struct detached_bitstream vbs = *bs;
+  int vrq = (true_bitstream.data != true_bitstream.limit
+             && bs->offset >= head_offs);
+#endif
 
   if (pos_le(bs->pos, parser_bs.pos)) {
     Trace(("Scanner found a known pattern at {%lu}",
@@ -790,6 +925,7 @@ do_scan(void)
            32ul + 32ul * bs->offset - bs->live));
 
     ub = XMALLOC(struct unord_blk);
+    VERIF_ALLOC(VERIF_C_UNORD);
     ub->base = bs->pos;
     ub->end_pos = *bs;
     ub->complete = false;
@@ -798,6 +934,7 @@ do_scan(void)
     rb = XMALLOC(struct retr_blk);
     rb->unord_link = ub;
     decoder_init(&rb->ds);
+    VERIF_ALLOC(VERIF_C_DEC);
     rb->curr_pos = *bs;
     rb->base = bs->pos;
     enqueue(retr_q, rb);
@@ -809,6 +946,9 @@ do_scan(void)
   else {
     free(bs);
   }
+  VERIF_EV("\"e\":\"ScanEnd\",\"kind\":\"%s\",\"maj\":%lu,\"bit\":%lu,\"off\":%lu,"
+           "\"requeue\":%d,\"found\":1,\"rel\":%u," VST, vsk, VMAJ(vbs.pos),
+           VBIT(vbs.pos), (unsigned long)vbs.offset, vrq, verif_rel_take(), VSA);
 
   check_invariants();
 }
@@ -845,6 +985,10 @@ on_input_avail(void *buffer, size_t size)
   *scan_task = bits_init(tail_offs);
 
   sched_lock();
+#ifdef KJN_LBZIP2_VERIF
+  if (parsing_done)
+    VERIF_EV("\"e\":\"AvailDrop\"," VST, VSA);
+#endif
   if (parsing_done) {
     sched_unlock();
     free(iblk);
@@ -857,6 +1001,8 @@ on_input_avail(void *buffer, size_t size)
   tail_offs += iblk->size;
   push(input_q, iblk);
   enqueue(scan_q, scan_task);
+  VERIF_EV("\"e\":\"Avail\",\"words\":%lu,\"bytes\":%lu," VST,
+           (unsigned long)iblk->size, (unsigned long)size, VSA);
   check_invariants();
   sched_unlock();
 }
@@ -868,9 +1014,11 @@ on_write_complete(void *buffer)
   struct out_blk *oblk = buffer;
 
   free(oblk - 1);
+  VERIF_FREE(VERIF_C_OUTBUF);
 
   sched_lock();
   ++out_slots;
+  VERIF_EV("\"e\":\"Written\"," VST, VSA);
   check_invariants();
   sched_unlock();
 }
@@ -897,6 +1045,13 @@ init(void)
 
   parser_bs = bits_init(0);
   parser_init(&par, bs100k, 0);
+  VERIF_EV("\"e\":\"InitX\",\"W\":%u,\"tin\":%u,\"tout\":%u,\"ultra\":%d,"
+           "\"ig\":%lu,\"og\":%lu,\"sth\":%u,\"eth\":%u,\"uth\":%u,"
+           "\"tasks\":\"%s,%s,%s,%s,%s\"," VST, num_worker, in_slots, out_slots,
+           (int)ultra, (unsigned long)in_granul, (unsigned long)out_granul,
+           SCAN_THRESH, EMIT_THRESH, UNORD_THRESH, expansion.tasks[0].name,
+           expansion.tasks[1].name, expansion.tasks[2].name,
+           expansion.tasks[3].name, expansion.tasks[4].name, VSA);
 }
 
 
